@@ -382,8 +382,9 @@ class MultiPhaseReservoir(SinglePhaseReservoir):
 def _is_solved(a_matrix: sparse.spmatrix, x: ndarray, b: ndarray) -> bool:
     """Check the true residual of an iterative solve against what was asked of it."""
     # relative to the right-hand side only: the scaled pseudopressure of a liquid table is of
-    # order 1e-6, and a depleted profile is smaller still
-    return np.linalg.norm(a_matrix @ x - b) <= _RESIDUAL_RTOL * np.linalg.norm(b)
+    # order 1e-6, and a depleted profile is smaller still (largest entries, not Euclidean
+    # norms: below 1e-154 the squares underflow and every iterate would pass as 0 <= 0)
+    return np.abs(a_matrix @ x - b).max() <= _RESIDUAL_RTOL * np.abs(b).max()
 
 
 def _build_matrix(kt_h2: ndarray) -> sparse.spmatrix:
